@@ -63,8 +63,14 @@ Children(kd) ==
     [] OTHER -> {}
 
 SubMaps(kd) == UNION {[S -> {<<"y">>, <<UP, "x">>, <<"x", "a">>}] : S \in SUBSET Children(kd)}
+\* a glob port may also carry a dictionary under '*': its own _path, and per
+\* child a renaming of the declared sub-variables (relative to the child)
+GlobSubMaps(kd) == UNION {[S -> {<<"m">>, <<"n", "a">>}] : S \in SUBSET kd.vs}
 Topos(kd) ==
   {[t |-> "path", hasp |-> FALSE, p |-> p, sub |-> <<>>] : p \in RelPaths}
+  \cup (IF kd.k # "glob" THEN {}
+        ELSE {[t |-> "gdict", hasp |-> TRUE, p |-> p, sub |-> s] :
+                p \in {<<"x">>, <<UP, "y">>, <<"x", "w">>}, s \in GlobSubMaps(kd)})
   \* (the constructor does not accept a dictionary topology for an output
   \*  port: that combination is outside the domain)
   \cup (IF Children(kd) = {} \/ kd.k = "output" THEN {}
@@ -74,6 +80,11 @@ Topos(kd) ==
 \* ---- the resolution function
 R(base, tp, v) ==
   IF tp.t = "path" THEN Norm(base \o tp.p) \o v
+  ELSE IF tp.t = "gdict" THEN
+       \* v = <<child, variable>>
+       IF v[2] \in DOMAIN tp.sub
+         THEN Norm(Norm(base \o tp.p) \o <<v[1]>> \o tp.sub[v[2]])
+         ELSE Norm(base \o tp.p) \o v
   ELSE LET nb == IF tp.hasp THEN Norm(base \o tp.p) ELSE base
        IN IF v # <<>> /\ Head(v) \in DOMAIN tp.sub
             THEN Norm(nb \o tp.sub[Head(v)]) \o Tail(v)
